@@ -64,11 +64,16 @@ Definition star_row (r : row) : Prop :=
 Ltac std_ctor_tac :=
   let qs := fresh "qs" in let ps := fresh "ps" in
   let Hq := fresh "Hq" in let Hp := fresh "Hp" in let Hc := fresh "Hc" in
-  intros qs ps Hq Hp Hc;
+  intros qs ps Hq Hp Hc; cbn in Hq, Hp;
   destruct qs as [|? [|? [|? [|? qs]]]]; simpl in Hq; try discriminate Hq;
   destruct ps as [|? [|? [|? [|? ps]]]]; simpl in Hp; try discriminate Hp;
   cbv -[check_qubits] in Hc;
   eexists; split; [cbv -[check_qubits]; rewrite Hc; reflexivity | repeat split; reflexivity].
+
+Ltac class_fact_tac :=
+  split; [vm_compute; reflexivity
+         | split; [let E := fresh "E" in intro E; first [vm_compute in E; discriminate E | eexists; repeat split; reflexivity]
+                  | let E := fresh "E" in intro E; first [vm_compute in E; discriminate E | clear E; std_ctor_tac]]].
 
 (* Gate.from_dict (Gate.raw g) gives back the class, the qubits and the parameters of g *)
 Definition raw_rt_ok (r : res gate) (g : gate) : Prop :=
@@ -893,4 +898,288 @@ Proof.
   destruct cs as [|c0 cs]; [congruence|].
   rewrite Hd. rewrite <- Ht in Hov. rewrite Hnd, Hov. cbn [negb andb].
   split; [reflexivity|]. unfold with_controls. simpl. repeat split; auto.
+Qed.
+
+(* ================================================================== Circuit.raw / Circuit.from_dict *)
+(* everything of a gate except the constructor-argument bookkeeping (init_args / init_kwargs / samples) *)
+Definition gsame (g g' : gate) : Prop :=
+  gcls g = gcls g' /\ gtargets g = gtargets g' /\ gcontrols g = gcontrols g' /\ gparams g = gparams g'
+  /\ gcb g = gcb g' /\ greg g = greg g' /\ gcollapse g = gcollapse g' /\ gbasis g = gbasis g'.
+
+Definition circ_rel (c c' : circuit) : Prop :=
+  cn c = cn c' /\ cdm c = cdm c' /\ cmeas c = cmeas c' /\ Forall2 gsame (cqueue c) (cqueue c').
+
+Lemma gsame_refl : forall g, gsame g g.
+Proof. intro g. repeat split; reflexivity. Qed.
+Lemma gsame_qubits : forall g g', gsame g g' -> gqubits g = gqubits g'.
+Proof. intros g g' (_ & Ht & Hc & _). unfold gqubits. rewrite Ht, Hc. reflexivity. Qed.
+Lemma gsame_isM : forall g g', gsame g g' -> is_M g = is_M g'.
+Proof. intros g g' (Hc & _). unfold is_M. rewrite Hc. reflexivity. Qed.
+Lemma gsame_set_collapse : forall g g', gsame g g' -> gsame (set_collapse g) (set_collapse g').
+Proof. intros g g' (H1 & H2 & H3 & H4 & H5 & H6 & H7 & H8). repeat split; simpl; assumption. Qed.
+Lemma gsame_set_reg : forall g g' s, gsame g g' -> gsame (set_reg g s) (set_reg g' s).
+Proof. intros g g' s (H1 & H2 & H3 & H4 & H5 & H6 & H7 & H8). repeat split; simpl; assumption. Qed.
+
+Lemma Forall2_nth_error : forall A B (R : A -> B -> Prop) l l' i,
+  Forall2 R l l' ->
+  match nth_error l i, nth_error l' i with
+  | Some a, Some b => R a b
+  | None, None => True
+  | _, _ => False
+  end.
+Proof.
+  intros A B R l l' i H. revert i. induction H as [|a b l l' Hab H IH]; intros [|i]; simpl; auto. apply IH.
+Qed.
+Lemma Forall2_set_nth : forall A B (R : A -> B -> Prop) l l' i a b,
+  Forall2 R l l' -> R a b -> Forall2 R (set_nth i a l) (set_nth i b l').
+Proof.
+  intros A B R l l' i a b H Hab. revert i. induction H as [|x y l l' Hxy H IH]; intros [|i]; simpl; constructor; auto.
+Qed.
+Lemma Forall2_app_one : forall A B (R : A -> B -> Prop) l l' a b,
+  Forall2 R l l' -> R a b -> Forall2 R (l ++ [a]) (l' ++ [b]).
+Proof. intros. apply Forall2_app; [assumption | constructor; [assumption | constructor]]. Qed.
+Lemma Forall2_length : forall A B (R : A -> B -> Prop) l l', Forall2 R l l' -> length l = length l'.
+Proof. intros A B R l l' H. induction H; simpl; congruence. Qed.
+
+Section CircuitDict.
+  Variable rotation : string -> Z -> option gate.
+
+  Lemma add_plain_rel : forall c c' g g' c1,
+    circ_rel c c' -> gsame g g' -> add_plain c g = OK c1 ->
+    exists c1', add_plain c' g' = OK c1' /\ circ_rel c1 c1'.
+  Proof.
+    intros c c' g g' c1 (Hn & Hdm & Hm & Hq) Hg H. unfold add_plain in *.
+    pose proof Hg as (_ & Ht & _).
+    rewrite <- Hn, <- Ht, <- Hm, <- Hdm.
+    destruct (existsb (fun q : Z => cn c <=? q) (gtargets g)); [discriminate|].
+    injection H as <-.
+    assert (Htouch : forall i,
+      match nth_gate (cqueue c) i with Some m => overlapZ (gqubits m) (gqubits g) | None => false end
+      = match nth_gate (cqueue c') i with Some m => overlapZ (gqubits m) (gqubits g') | None => false end).
+    { intro i. pose proof (Forall2_nth_error _ _ gsame _ _ i Hq) as Hi. unfold nth_gate.
+      destruct (nth_error (cqueue c) i), (nth_error (cqueue c') i); try contradiction; [|reflexivity].
+      rewrite (gsame_qubits _ _ Hi), (gsame_qubits _ _ Hg). reflexivity. }
+    eexists. split; [reflexivity|].
+    unfold circ_rel. simpl. repeat split; try assumption.
+    - apply filter_ext. intro i. rewrite Htouch. reflexivity.
+    - apply Forall2_app_one; [|exact Hg].
+      generalize (cmeas c). intro l. revert Hq. generalize (cqueue c) at 1 3. generalize (cqueue c') at 1 3.
+      induction l as [|i l IH]; intros q' q Hqq; simpl; [exact Hqq|].
+      apply IH. rewrite <- Htouch.
+      destruct (match nth_gate (cqueue c) i with Some m => overlapZ (gqubits m) (gqubits g) | None => false end); [|exact Hqq].
+      pose proof (Forall2_nth_error _ _ gsame _ _ i Hqq) as Hi. unfold nth_gate.
+      destruct (nth_error q i), (nth_error q' i); try contradiction; [|exact Hqq].
+      apply Forall2_set_nth; [exact Hqq | apply gsame_set_collapse, Hi].
+  Qed.
+
+  Lemma foldM_add_plain_rel : forall gs c c' c1,
+    circ_rel c c' -> foldM add_plain gs c = OK c1 ->
+    exists c1', foldM add_plain gs c' = OK c1' /\ circ_rel c1 c1'.
+  Proof.
+    induction gs as [|g gs IH]; intros c c' c1 Hr H; simpl in *.
+    - injection H as <-. exists c'. split; [reflexivity | exact Hr].
+    - apply rbind_ok in H. destruct H as (c2 & H2 & H).
+      destruct (add_plain_rel c c' g g c2 Hr (gsame_refl g) H2) as (c2' & H2' & Hr2).
+      rewrite H2'. simpl. apply (IH c2 c2' c1 Hr2 H).
+  Qed.
+
+  Lemma count_M_rel : forall q q', Forall2 gsame q q' -> count_M q = count_M q'.
+  Proof.
+    intros q q' H. unfold count_M. induction H as [|g g' q q' Hg H IH]; simpl; [reflexivity|].
+    rewrite (gsame_isM _ _ Hg). destruct (is_M g'); simpl; congruence.
+  Qed.
+
+  Lemma reg_names_rel : forall c c', circ_rel c c' -> reg_names c = reg_names c'.
+  Proof.
+    intros c c' (_ & _ & Hm & Hq). unfold reg_names. rewrite <- Hm. clear Hm.
+    generalize (cmeas c). intro l.
+    induction l as [|i l IH]; simpl; [reflexivity|]. rewrite IH. f_equal.
+    pose proof (Forall2_nth_error _ _ gsame _ _ i Hq) as Hi. unfold nth_gate.
+    destruct (nth_error (cqueue c) i), (nth_error (cqueue c') i); try contradiction; [|reflexivity].
+    destruct Hi as (_ & _ & _ & _ & _ & Hreg & _). rewrite Hreg. reflexivity.
+  Qed.
+
+  Lemma basis_gates_rel : forall g g', gsame g g' -> basis_gates rotation g = basis_gates rotation g'.
+  Proof. intros g g' (_ & Ht & _ & _ & _ & _ & _ & Hb). unfold basis_gates. rewrite Ht, Hb. reflexivity. Qed.
+
+  Lemma add_rel : forall c c' g g' c1,
+    circ_rel c c' -> gsame g g' -> add rotation c g = OK c1 ->
+    exists c1', add rotation c' g' = OK c1' /\ circ_rel c1 c1'.
+  Proof.
+    intros c c' g g' c1 Hr Hg H. unfold add in *.
+    rewrite <- (gsame_isM _ _ Hg). destruct (is_M g) eqn:EM; simpl in *.
+    2:{ apply (add_plain_rel c c' g g' c1 Hr Hg H). }
+    pose proof Hr as (Hn & _). pose proof Hg as (_ & Ht & _ & _ & _ & Hreg & Hcol & _).
+    rewrite <- Hn, <- Ht. destruct (existsb (fun q : Z => cn c <=? q) (gtargets g)); [discriminate|].
+    apply rbind_ok in H. destruct H as (c2 & H2 & H).
+    rewrite <- (basis_gates_rel _ _ Hg).
+    destruct (foldM_add_plain_rel _ c c' c2 Hr H2) as (c2' & H2' & Hr2).
+    rewrite H2'. simpl.
+    pose proof Hr2 as (Hn2 & Hdm2 & Hm2 & Hq2).
+    rewrite <- (reg_names_rel _ _ Hr2), <- (count_M_rel _ _ Hq2), <- Hreg.
+    apply rbind_ok in H. destruct H as (g1 & Hg1 & H). injection H as <-.
+    destruct (greg g) as [s|] eqn:Eg.
+    - destruct (mem_str s (reg_names c2)); [discriminate|]. injection Hg1 as <-. simpl.
+      eexists. split; [reflexivity|]. unfold circ_rel. simpl.
+      rewrite <- Hcol, <- Hm2, <- (Forall2_length _ _ _ _ _ Hq2).
+      repeat split; try assumption. apply Forall2_app_one; assumption.
+    - injection Hg1 as <-. simpl.
+      eexists. split; [reflexivity|]. unfold circ_rel. simpl.
+      rewrite <- Hcol, <- Hm2, <- (Forall2_length _ _ _ _ _ Hq2).
+      repeat split; try assumption. apply Forall2_app_one; [assumption | apply gsame_set_reg, Hg].
+  Qed.
+
+  (* ---- Circuit.add never changes what Gate.raw reads of a gate that is already in the queue *)
+  Variable required : list string.
+
+  Lemma raw_set_collapse : forall g, raw required (set_collapse g) = raw required g.
+  Proof. reflexivity. Qed.
+  Lemma raw_set_reg : forall g s, raw required (set_reg g s) = raw required g.
+  Proof. reflexivity. Qed.
+
+  Lemma map_raw_set_nth : forall q i m,
+    nth_error q i = Some m -> map (raw required) (set_nth i (set_collapse m) q) = map (raw required) q.
+  Proof.
+    induction q as [|g q IH]; intros [|i] m H; simpl in *; try discriminate.
+    - injection H as <-. reflexivity.
+    - rewrite (IH i m H). reflexivity.
+  Qed.
+
+  Lemma fold_collapse_raw : forall (t : nat -> bool) l q,
+    map (raw required)
+        (fold_left (fun (q : list gate) (i : nat) =>
+                      if t i then match nth_gate q i with Some m => set_nth i (set_collapse m) q | None => q end
+                      else q) l q)
+    = map (raw required) q.
+  Proof.
+    intros t l. induction l as [|i l IH]; intro q; simpl; [reflexivity|].
+    rewrite IH. destruct (t i); [|reflexivity]. unfold nth_gate.
+    destruct (nth_error q i) eqn:E; [apply (map_raw_set_nth q i g E) | reflexivity].
+  Qed.
+
+  Lemma add_plain_raw : forall c g c1,
+    add_plain c g = OK c1 -> map (raw required) (cqueue c1) = map (raw required) (cqueue c) ++ [raw required g].
+  Proof.
+    intros c g c1 H. unfold add_plain in H.
+    destruct (existsb (fun q : Z => cn c <=? q) (gtargets g)); [discriminate|]. injection H as <-. simpl.
+    rewrite map_app. simpl. f_equal.
+    apply (fold_collapse_raw (fun i : nat => match nth_gate (cqueue c) i with
+                                             | Some m => overlapZ (gqubits m) (gqubits g) | None => false end)).
+  Qed.
+
+  Lemma add_raw : forall c g c1,
+    add rotation c g = OK c1 -> basis_gates rotation g = [] ->
+    map (raw required) (cqueue c1) = map (raw required) (cqueue c) ++ [raw required g].
+  Proof.
+    intros c g c1 H Hb. unfold add in H. destruct (is_M g); simpl in H.
+    2:{ apply add_plain_raw, H. }
+    destruct (existsb (fun q : Z => cn c <=? q) (gtargets g)); [discriminate|].
+    rewrite Hb in H. simpl in H.
+    apply rbind_ok in H. destruct H as (g1 & Hg1 & H). injection H as <-. simpl.
+    rewrite map_app. simpl. f_equal. f_equal.
+    destruct (greg g); [destruct (mem_str s (reg_names c)); [discriminate|] |]; injection Hg1 as <-; reflexivity.
+  Qed.
+
+  Lemma build_raw : forall gs c0 c,
+    foldM (add rotation) gs c0 = OK c -> Forall (fun g => basis_gates rotation g = []) gs ->
+    map (raw required) (cqueue c) = map (raw required) (cqueue c0) ++ map (raw required) gs.
+  Proof.
+    induction gs as [|g gs IH]; intros c0 c H Hb; simpl in *.
+    - injection H as <-. rewrite app_nil_r. reflexivity.
+    - apply rbind_ok in H. destruct H as (c1 & H1 & H). inversion Hb; subst.
+      rewrite (IH c1 c H) by assumption. rewrite (add_raw c0 g c1 H1) by assumption.
+      rewrite <- app_assoc. reflexivity.
+  Qed.
+
+  Variables (rows : list row) (bases : list string).
+
+  Theorem circuit_dict_roundtrip_main : forall n dm gs c,
+    build rotation n dm gs = OK c ->
+    Forall (fun g => basis_gates rotation g = []
+                     /\ exists g', from_dict rows bases (raw required g) = OK g' /\ gsame g g') gs ->
+    exists c', cfrom_dict rows bases rotation (craw required c) = OK c' /\ circ_rel c c'.
+  Proof.
+    intros n dm gs c Hb Hall. unfold cfrom_dict, craw.
+    assert (Hraw : map (raw required) (cqueue c) = map (raw required) gs).
+    { unfold build in Hb. rewrite (build_raw gs (cinit n dm) c Hb); [reflexivity|].
+      eapply Forall_impl; [|exact Hall]. intros g [H _]. exact H. }
+    rewrite Hraw.
+    assert (Hn : cn c = n /\ cdm c = dm).
+    { unfold build in Hb. clear Hraw Hall.
+      assert (G : forall gs c0 c, foldM (add rotation) gs c0 = OK c -> cn c = cn c0 /\ cdm c = cdm c0).
+      { induction gs0 as [|g gs0 IH]; intros c0 c2 H; simpl in H; [injection H as <-; split; reflexivity|].
+        apply rbind_ok in H. destruct H as (c1 & H1 & H). destruct (IH c1 c2 H) as [E1 E2]. rewrite E1, E2.
+        clear -H1. unfold add in H1. destruct (is_M g); simpl in H1.
+        - destruct (existsb (fun q : Z => cn c0 <=? q) (gtargets g)); [discriminate|].
+          apply rbind_ok in H1. destruct H1 as (c3 & H3 & H1).
+          apply rbind_ok in H1. destruct H1 as (g1 & _ & H1). injection H1 as <-. simpl.
+          clear -H3. revert c0 c3 H3. induction (basis_gates rotation g) as [|b l IHl]; intros c0 c3 H3; simpl in H3.
+          + injection H3 as <-. split; reflexivity.
+          + apply rbind_ok in H3. destruct H3 as (c4 & H4 & H3). destruct (IHl c4 c3 H3) as [E1 E2]. rewrite E1, E2.
+            unfold add_plain in H4. destruct (existsb (fun q : Z => cn c0 <=? q) (gtargets b)); [discriminate|].
+            injection H4 as <-. split; reflexivity.
+        - unfold add_plain in H1. destruct (existsb (fun q : Z => cn c0 <=? q) (gtargets g)); [discriminate|].
+          injection H1 as <-. split; reflexivity. }
+      apply (G gs (cinit n dm) c Hb). }
+    destruct Hn as [-> ->].
+    unfold build in Hb.
+    assert (G : forall gs c0 c0' c, circ_rel c0 c0' -> foldM (add rotation) gs c0 = OK c ->
+              Forall (fun g => exists g', from_dict rows bases (raw required g) = OK g' /\ gsame g g') gs ->
+              exists c', foldM (fun c w => g <- from_dict rows bases w; add rotation c g) (map (raw required) gs) c0' = OK c'
+                         /\ circ_rel c c').
+    { induction gs0 as [|g gs0 IH]; intros c0 c0' c2 Hr H HF; simpl in *.
+      - injection H as <-. exists c0'. split; [reflexivity | exact Hr].
+      - apply rbind_ok in H. destruct H as (c1 & H1 & H). inversion HF as [|? ? (g' & Hfd & Hg) HF']; subst.
+        rewrite Hfd. simpl.
+        destruct (add_rel c0 c0' g g' c1 Hr Hg H1) as (c1' & H1' & Hr1). rewrite H1'. simpl.
+        apply (IH c1 c1' c2 Hr1 H HF'). }
+    apply (G gs (cinit n dm) (cinit n dm) c).
+    - repeat split; constructor.
+    - exact Hb.
+    - eapply Forall_impl; [|exact Hall]. intros g [_ H]. exact H.
+  Qed.
+End CircuitDict.
+
+(* ================================================================== M.raw / from_dict (used for the M gates of circuit_dict_roundtrip) *)
+Definition M_keys : list string := ["register_name"; "collapse"; "basis"; "p0"; "p1"].
+
+Lemma mapM_str_of_atom_length : forall l names, mapM str_of_atom l = OK names -> length names = length l.
+Proof. intros. eapply mapM_length; eassumption. Qed.
+
+Lemma M_raw_roundtrip : forall rows bases required rotation,
+  M_tables_ok rows bases rotation -> forallb (fun k => mem_str k required) M_keys = true ->
+  forall r pos kw g, find_row "M" rows = Some r -> construct bases r pos kw = OK g ->
+  from_dict rows bases (raw required g) = OK g.
+Proof.
+  intros rows bases required rotation [(r0 & Hf0 & Hn0 & Hfs0) _] Hreq r pos kw g Hr Hc.
+  rewrite Hf0 in Hr. injection Hr as <-.
+  unfold construct in Hc. apply rbind_ok in Hc. destruct Hc as (e & _ & Hmk).
+  rewrite Hn0 in Hmk. simpl in Hmk.
+  unfold mk_M in Hmk.
+  destruct (lookup "q" e) as [[?|qs]|]; try discriminate.
+  destruct (lookup "register_name" e) as [[rn|?]|]; try discriminate.
+  destruct (lookup "collapse" e) as [[[[| |col| | |]|?]|?]|]; try discriminate.
+  destruct (lookup "basis" e) as [[bs|?]|]; try discriminate.
+  destruct (lookup "p0" e) as [[p0|?]|]; try discriminate.
+  destruct (lookup "p1" e) as [[p1|?]|]; try discriminate.
+  apply rbind_ok in Hmk. destruct Hmk as (ts & Hts & Hmk).
+  destruct (negb (nodupZ ts)) eqn:End; [discriminate|].
+  apply rbind_ok in Hmk. destruct Hmk as (reg & Hreg & Hmk).
+  apply rbind_ok in Hmk. destruct Hmk as (names & Hnames & Hmk).
+  destruct (negb (forallb (fun s : string => mem_str s bases) names)) eqn:Eb; [discriminate|].
+  destruct (col && negb (val_eqb p0 (VA ANone) && val_eqb p1 (VA ANone))) eqn:Ecol; [discriminate|].
+  apply rbind_ok in Hmk. destruct Hmk as ([] & Hb0 & Hmk).
+  apply rbind_ok in Hmk. destruct Hmk as ([] & Hb1 & Hmk).
+  injection Hmk as <-.
+  assert (Hlen : length names = length ts).
+  { destruct bs as [a|l].
+    - apply rbind_ok in Hnames. destruct Hnames as (s & _ & Hn). injection Hn as <-. apply repeat_length.
+    - destruct (Nat.eqb (length l) (length ts)) eqn:El; [|discriminate]. apply Nat.eqb_eq in El.
+      rewrite (mapM_str_of_atom_length l names Hnames). exact El. }
+  unfold from_dict, raw. simpl.
+  simpl in Hreq. repeat rewrite andb_true_iff in Hreq. destruct Hreq as (K1 & K2 & K3 & K4 & K5 & _).
+  rewrite K1, K2, K3, K4, K5. simpl. rewrite Hf0. unfold construct. rewrite Hfs0, Hn0. simpl.
+  unfold mk_M. simpl. rewrite Hts. simpl. rewrite End. rewrite Hreg. simpl.
+  rewrite map_length, Hlen, Nat.eqb_refl. rewrite mapM_str_of_atom. simpl.
+  rewrite Eb, Ecol, Hb0, Hb1. simpl. reflexivity.
 Qed.
